@@ -13,7 +13,7 @@ oracle   : grammar-directed generator that emits text + expected tree (vlib/gen/
 import re
 
 from .. import core, ranges, sexp
-from ..gen import wf, parsecases, exspec
+from ..gen import wf, parsecases, exspec, progspec
 
 RULE = ("cases = well-formed programs from the grammar-directed generator vlib/gen/wf.py (every construct of the supported grammar, depth/size bounded) "
         "under random layout and keyword case, + every ordered pair of binary operators (a op1 b op2 c), + every block statement nested in every "
@@ -78,6 +78,7 @@ def run(ctx):
     ctx.extract(["E5_OperatorLadder"])
     ctx.prove("GoldModel.Props.C06")
     ctx.prove("GoldModel.Props.C06Expr")
+    ctx.prove("GoldModel.Props.C06Prog")
     if not ctx.build_harness():
         return ctx.finish(rule=RULE)
     q = ctx.tier == "quick"
@@ -125,6 +126,7 @@ def run(ctx):
         expected.append(tree)
         ctx.count("generated-program")
     expr_spec(ctx, 3000 if q else 60000, 6)
+    prog_spec(ctx, 2500 if q else 50000, 3)
     lines = parsecases.texts_to_lines(ctx, texts)
     ctx.log("%d programs" % len(lines))
     impl = ctx.run_harness("parse", lines, timeout=1200)
@@ -214,6 +216,60 @@ def expr_spec(ctx, n, depth):
         ok += 1
     ctx.oblige("tie:exspec", not bad, "%d cases, first: %s" % (len(bad), bad[0] if bad else ""))
     ctx.log("exspec: %d expressions, implementation tree == Ex.tree (ranges included)" % ok)
+
+
+def prog_spec(ctx, n, depth):
+    """tie of the SPEC side of `prog_roundtrip` (Prog.toks / Prog.tree / Prog.wfb, Lean) to the implementation: random abstract
+    programs (declarations, parameters, statements nested to `depth`) are printed, lexed and parsed by the real code; the Lean
+    spec, given the real tokens, must say `well formed`, must print exactly these tokens, and its `Prog.tree` must be the tree
+    the implementation built (kinds, names, ranges, selection ranges), with zero diagnostics"""
+    cases = []
+    for i in range(n):
+        words, prefix, counts = progspec.case(ctx.rng, ctx.rng.below(depth + 1))
+        text = progspec.layout(ctx.rng, words)
+        cases.append((text, words, prefix))
+        ctx.count("prog-spec")
+        for k, v in counts.items():
+            ctx.count("prog-spec:" + k, v)
+    lines = parsecases.texts_to_lines(ctx, [c[0] for c in cases])
+    impl = ctx.run_harness("parse", lines, timeout=1200)
+    spec_lines, usable = [], []
+    bad = []
+    for (text, words, prefix), line in zip(cases, lines):
+        toks = line.split(" ")[1:]
+        if not line.startswith("parse") or len(toks) != len(words):
+            bad.append("the generator's words are not the lexer's tokens: %r" % text)
+            usable.append(False)
+            spec_lines.append("progspec")
+            continue
+        usable.append(True)
+        spec_lines.append("progspec " + " ".join(toks[int(w[1:])] if w.startswith("#") else w for w in prefix))
+    spec = ctx.run_driver(spec_lines, timeout=1200)
+    ok = 0
+    for (text, words, prefix), line, a, sp, u in zip(cases, lines, impl, spec, usable):
+        if not u:
+            continue
+        case = {"mode": "text", "text": text, "case": line}
+        t, d = sexp.field(a, "T"), sexp.field(a, "D")
+        toks = line.split(" ")[1:]
+        w, st, k = sexp.field(sp, "W"), sexp.field(sp, "T"), sexp.field(sp, "K")
+        if w != "1" or (k or "") != ",".join(toks):
+            bad.append("the Lean spec rejects (W=%s) or does not re-print the tokens of a generated program: %r -> %s" % (w, text, sp[:200]))
+            continue
+        if t is None or d:
+            ctx.oracle_fail("C06:diagnostic-on-well-formed-program", "a well-formed program produced %s" % (core.unesc(d or "")[:200] or "no tree"), case)
+            continue
+        if t != st:
+            i = 0
+            while i < min(len(t), len(st)) and t[i] == st[i]:
+                i += 1
+            ctx.oracle_fail("C06:tree-differs-from-intended", "the tree built for a program differs from Prog.tree of the specification",
+                            dict(case, got=t[max(0, i - 300):i + 300], want=st[max(0, i - 300):i + 300]))
+            continue
+        ctx.distinct.add(st)
+        ok += 1
+    ctx.oblige("tie:progspec", not bad, "%d cases, first: %s" % (len(bad), bad[0] if bad else ""))
+    ctx.log("progspec: %d programs, implementation tree == Prog.tree (ranges and selection ranges included), no diagnostics" % ok)
 
 
 def replay(ctx):
